@@ -168,6 +168,9 @@ class Fn:
             obj=getattr(self.mod.py,e.value.id,None)
             if isinstance(obj,type) and issubclass(obj,enum.Enum) and e.attr in obj.__members__ and isinstance(obj[e.attr].value,int):
                 return "(VInt (%d))"%obj[e.attr].value
+            import types
+            if isinstance(obj,types.ModuleType) and e.attr.isupper() and isinstance(getattr(obj,e.attr,None),int) and not isinstance(getattr(obj,e.attr),bool):
+                return "(VInt (%d))"%int(getattr(obj,e.attr))      # an integer constant of an imported module (re.IGNORECASE)
             # a constant attribute (tuple / list / str / int) of a class visible in the module, e.g. IpAnonymizer.RFC_1918_NETWORKS
             if isinstance(obj,type) and e.attr in obj.__dict__ and isinstance(obj.__dict__[e.attr],(tuple,list,str,int)) and not isinstance(obj.__dict__[e.attr],bool):
                 return coq_val(obj.__dict__[e.attr])
@@ -194,6 +197,9 @@ class Fn:
                 return ("(VBool (is_none %s))"%a) if isinstance(op,ast.Is) else ("(VBool (negb (is_none %s)))"%a)
             b=self.ex(e.comparators[0],binds); t=self.tmp()
             if type(op) in CMP: binds.append("%s <- %s %s %s ;; "%(t,CMP[type(op)],a,b)); return t
+            if isinstance(op,ast.In) and getattr(self.mod,"sets_as_lists",False):
+                self.mod.need_lib2=True
+                binds.append("%s <- py_in2 %s %s ;; "%(t,a,b)); return t
             if isinstance(op,ast.In): binds.append("%s <- py_in %s %s ;; "%(t,a,b)); return t
             if isinstance(op,ast.NotIn):
                 t0=self.tmp(); binds.append("%s <- py_in %s %s ;; "%(t0,a,b)); binds.append("%s <- py_not %s ;; "%(t,t0)); return t
@@ -243,6 +249,20 @@ class Fn:
             binds.append("let v_acc_ := (VDict []) in e_ <- py_for %s (fun x_ %s => let v_%s := x_ in %s%s <- py_setitem v_acc_ %s %s ;; let v_acc_ := %s in Normal %s) %s ;; let %s := e_ in "
                          %(items,self.pat(),g.target.id,"".join(sub),ta,k,v,ta,self.env(),self.env(),self.pat()))
             return "v_acc_"
+        if (isinstance(e,(ast.SetComp,ast.ListComp)) and getattr(self.mod,"sets_as_lists",False) and len(e.generators)==1 and len(e.generators[0].ifs)<=1
+                and isinstance(e.generators[0].target,ast.Name) and (isinstance(e,ast.SetComp) or e.generators[0].ifs)):
+            # {ELT for x in ITER [if COND]} / [ELT for x in ITER if COND]: the list of the ELTs in iteration order; a set keeps the first of equal elements
+            self.mod.need_lib2=True
+            g=e.generators[0]; it=self.ex(g.iter,binds); items=self.tmp(); binds.append("%s <- py_iter %s ;; "%(items,it))
+            saved=self.vars; self.vars=self.vars+[g.target.id] if g.target.id not in self.vars else self.vars
+            sc=[]; c=self.ex(g.ifs[0],sc) if g.ifs else None; sub=[]; el=self.ex(e.elt,sub); self.vars=saved
+            if any("v_self) := p_" in x for x in sc+sub): raise Unsupported("effect in comprehension")
+            t=self.tmp()
+            body=("%sif truthy %s then (%sNormal (acc_ ++ [%s])%%list) else Normal acc_"%("".join(sc),c,"".join(sub),el)) if g.ifs else ("%sNormal (acc_ ++ [%s])%%list"%("".join(sub),el))
+            binds.append("%s <- py_for %s (fun x_ acc_ => let v_%s := x_ in %s) (@nil pyval) ;; "%(t,items,g.target.id,body))
+            if isinstance(e,ast.SetComp):
+                t2=self.tmp(); binds.append("%s <- py_dedup (VList %s) ;; "%(t2,t)); return t2
+            return "(VList %s)"%t
         if isinstance(e,ast.JoinedStr):
             acc=None
             for p_ in e.values:
@@ -437,7 +457,17 @@ class Fn:
             if f.id=="int": return lib("py_int",A(0),A(1) if len(e.args)>1 else "VNone")
             if f.id=="str": return lib("py_str",A(0))
             if f.id=="list": return lib("py_list",A(0))
-            if f.id=="set" and len(e.args)==1 and getattr(self.mod,"sets_as_lists",False): return lib("py_list",A(0))
+            if f.id=="set" and len(e.args)==1 and getattr(self.mod,"sets_as_lists",False):
+                x=lib("py_list",A(0))
+                if getattr(self.mod,"sets_dedup",False):
+                    self.mod.need_lib2=True; return lib("py_dedup",x)
+                return x
+            if f.id=="set" and not e.args and not e.keywords and getattr(self.mod,"sets_as_lists",False): return "(VList [])"
+            if (f.id=="sorted" and len(e.args)==1 and len(e.keywords)==1 and e.keywords[0].arg=="key" and isinstance(e.keywords[0].value,ast.Lambda)
+                    and ast.unparse(e.keywords[0].value).replace(" ","") in ("lambdaw:(-len(w),w)",)):
+                # sorted(xs, key=lambda w: (-len(w), w)): longest first, equal lengths in code-point order
+                self.mod.need_lib2=True
+                return lib("py_sorted_lenlex",A(0))
             if f.id=="range" and len(e.args)==1: return lib("py_range",A(0))
             if f.id=="any": return lib("py_any",A(0))
             if f.id=="bidict": return lib("new_bidict",A(0))
@@ -590,6 +620,10 @@ class Fn:
             return sp+"".join(b)+"%s <- py_list_append v_%s %s ;; let v_%s := %s in\n"%(t,v,a,v,t)+self.block(rest,ind)
         if isinstance(s,ast.Expr) and isinstance(s.value,ast.Call):
             c=s.value; f=c.func
+            if isinstance(f,ast.Attribute) and f.attr=="update" and len(c.args)==1 and isinstance(f.value,ast.Name) and f.value.id in self.vars and getattr(self.mod,"sets_as_lists",False):
+                self.mod.need_lib2=True
+                b=[]; a=self.ex(c.args[0],b); t=self.tmp(); t2=self.tmp()
+                return sp+"".join(b)+"%s <- py_set_union v_%s %s ;; %s <- py_dedup %s ;; let v_%s := %s in\n"%(t,f.value.id,a,t2,t,f.value.id,t2)+self.block(rest,ind)
             if isinstance(f,ast.Attribute) and f.attr=="extend" and isinstance(f.value,ast.Name) and f.value.id in self.vars:
                 b=[]; a=self.ex(c.args[0],b); t=self.tmp()
                 return sp+"".join(b)+"%s <- py_list_extend v_%s %s ;; let v_%s := %s in\n"%(t,f.value.id,a,f.value.id,t)+self.block(rest,ind)
@@ -613,12 +647,12 @@ class Fn:
         return "(* REFUSED by the translator: %s *)\nDefinition %s (py_call : pyval -> pyval -> res) (fuel:nat) %s : res := Exc Unsupported."%(reason.replace("*)","* )"),gname(self.cls,self.fn.name),ps)
 
 
-def translate_module(path, pymod, wanted=None, oracles=(), xmods=None, external=(), requires=(), method_oracles=(), xfuncs=None, thread_oracles=None, method_thread_oracles=(), io_lists=False, global_oracles=(), sets_as_lists=False,
+def translate_module(path, pymod, wanted=None, oracles=(), xmods=None, external=(), requires=(), method_oracles=(), xfuncs=None, thread_oracles=None, method_thread_oracles=(), io_lists=False, global_oracles=(), sets_as_lists=False, sets_dedup=False,
                      param_classes=None, sub_callbacks=False, field_classes=None):
     """returns (coq text, translated names, {failed name: reason}).
     xmods: {python module name as written in the source: (python module object, Coq module holding its generated functions)};
     external: functions of this module that another generated unit already defines (named in `requires`): translated for their signature, not emitted"""
-    mod=Mod(path,pymod); mod.oracles=set(oracles); mod.method_oracles=set(method_oracles); mod.global_oracles=set(global_oracles); mod.sets_as_lists=sets_as_lists
+    mod=Mod(path,pymod); mod.oracles=set(oracles); mod.method_oracles=set(method_oracles); mod.global_oracles=set(global_oracles); mod.sets_as_lists=sets_as_lists; mod.sets_dedup=sets_dedup
     mod.xmods={k:(Mod(v[0].__file__,v[0]),v[1]) for k,v in (xmods or {}).items()}
     mod.xfuncs={k:(Mod(v[0].__file__,v[0]),v[1]) for k,v in (xfuncs or {}).items()}
     for k,v in (xfuncs or {}).items():
@@ -661,7 +695,7 @@ def translate_module(path, pymod, wanted=None, oracles=(), xmods=None, external=
             t,_,_=E.pattern(pat,0); rx.append("Definition RX_%s : re := %s."%(nm,t))
         hdr_extra += ["Require Import Rx PyRe.", E.set_defs()] + rx
     if getattr(mod,"need_hash",False): hdr_extra.append("Require Import PyHash.")
-    if any(w in emitted_text for w in ("unpack3","py_try_ve","py_str_repeat","py_b2a_hex_encode","py_lstrip","py_rstrip","py_split_ws","py_stitch","py_items","py_set_union")): hdr_extra.append("Require Import PyLib2.")
+    if any(w in emitted_text for w in ("unpack3","py_try_ve","py_str_repeat","py_b2a_hex_encode","py_lstrip","py_rstrip","py_split_ws","py_stitch","py_items","py_set_union","py_dedup","py_sorted_lenlex","py_in2")): hdr_extra.append("Require Import PyLib2.")
     for r in requires: hdr_extra.append("Require Import %s."%r)
     for k,(xm,cm) in mod.xmods.items(): hdr_extra.append("Require %s."%cm)
     for cm in sorted(set(v[1] for v in mod.xfuncs.values())|set(v[2] for v in mod.field_classes.values())): hdr_extra.append("Require %s."%cm)
